@@ -87,10 +87,12 @@ fn pdf_text(rep: &TaxReport) -> String {
 fn plain_transactions_sorted(plain: &str) -> Result<(), String> {
     // lines of the "# TRANSACTIONS" section: "DD/MM/YYYY BUY|SELL qty TICKER @ ..."
     let mut in_sec = false;
+    let mut events = false;
     let mut prev: Option<(String, String)> = None;
     for l in plain.lines() {
         if l.starts_with("# ") {
-            in_sec = l.trim() == "# TRANSACTIONS";
+            in_sec = l.trim() == "# TRANSACTIONS" || l.trim() == "# ASSET EVENTS";
+            events = l.trim() == "# ASSET EVENTS";
             prev = None;
             continue;
         }
@@ -105,7 +107,8 @@ fn plain_transactions_sorted(plain: &str) -> Result<(), String> {
         if d.len() != 3 {
             continue;
         }
-        let key = (format!("{}-{}-{}", d[2], d[1], d[0]), t[3].to_string());
+        // "DD/MM/YYYY BUY|SELL qty TICKER @ ..." ; "DD/MM/YYYY CAPRETURN|ACCUMULATION|DIVIDEND|SPLIT|UNSPLIT TICKER ..."
+        let key = (format!("{}-{}-{}", d[2], d[1], d[0]), if events { t[2].to_string() } else { t[3].to_string() });
         if let Some(p) = &prev {
             if *p > key {
                 return Err(format!("echoed transactions not sorted by date then ticker: {p:?} before {key:?}"));
@@ -145,6 +148,36 @@ pub fn c16(tier: Tier) -> i32 {
             }
             if let Err(e) = plain_transactions_sorted(&cgt_formatter_plain::format(brep)) {
                 acc.violation(&ctxr.findings, "C16", Violation { clause: "transactions-ordered".into(), input: Input::Ledger(txs.clone()), detail: e, context: json!({"profile": name}) });
+            }
+            // the same lines in other input orders (identity schedule): as given but stably sorted by date (a day's
+            // securities stay in their written, non-alphabetical order), by date with securities descending, and
+            // reversed: the stated orders must hold for each, and the text report must not depend on the order
+            let base_plain = cgt_formatter_plain::format(brep);
+            let mut by_date = txs.clone();
+            by_date.sort_by_key(|t| t.date);
+            let mut by_date_desc = txs.clone();
+            by_date_desc.sort_by(|a, b| (a.date, &b.ticker).cmp(&(b.date, &a.ticker)));
+            let mut reversed = txs.clone();
+            reversed.reverse();
+            for (label, v) in [("sorted by date, securities as written", by_date), ("sorted by date, securities descending", by_date_desc), ("reversed", reversed)] {
+                let e = run(&v, &cfg, vec![]);
+                acc.states += 1;
+                acc.validated += 1;
+                acc.bump("input-order-variants");
+                let Some(r) = &e.report else {
+                    acc.violation(&ctxr.findings, "C16", Violation { clause: "output-depends-on-input-order".into(), input: Input::Ledger(v.clone()), detail: format!("the ledger is refused in the order '{label}': {}", e.out.chars().take(200).collect::<String>()), context: json!({"profile": name}) });
+                    continue;
+                };
+                for d in order_invariants(r) {
+                    acc.violation(&ctxr.findings, "C16", Violation { clause: d.clause.into(), input: Input::Ledger(v.clone()), detail: d.detail, context: json!({"profile": name, "input_order": label}) });
+                }
+                let plain = cgt_formatter_plain::format(r);
+                if let Err(m) = plain_transactions_sorted(&plain) {
+                    acc.violation(&ctxr.findings, "C16", Violation { clause: "transactions-ordered".into(), input: Input::Ledger(v.clone()), detail: m, context: json!({"profile": name, "input_order": label}) });
+                } else if plain != base_plain {
+                    let first_diff = plain.lines().zip(base_plain.lines()).find(|(a, b)| a != b).map(|(a, b)| format!("{a:?} vs {b:?}")).unwrap_or_default();
+                    acc.violation(&ctxr.findings, "C16", Violation { clause: "output-depends-on-input-order".into(), input: Input::Ledger(v.clone()), detail: format!("the text report differs when the same lines are given in the order '{label}': {first_diff}"), context: json!({"profile": name}) });
+                }
             }
             let mut distinct: std::collections::BTreeSet<String> = std::collections::BTreeSet::new();
             distinct.insert(base.out.clone());
